@@ -20,6 +20,8 @@ import dns.rrset
 import dns.tokenizer
 import dns.tsig
 import dns.ttl
+import dns.btreezone
+import dns.versioned
 import dns.wire
 import dns.zone
 import dns.zonefile
@@ -518,7 +520,14 @@ def eval_case(ctx: Ctx, c: dict):
     elif k == "rdata.text":
         t = c["text"]
         origin = dns.name.from_text("example.") if c.get("origin") else None
-        cls, v, e = guarded(lambda: dns.rdata.from_text(c["rdclass"], c["rdtype"], t, origin, relativize=bool(c.get("relativize"))))
+        tkw = {}
+        if c.get("rt") is not None:
+            tkw["relativize_to"] = dns.name.from_text(c["rt"]) if c["rt"] != "@" else dns.name.empty
+        if c.get("idna") == "2003":
+            tkw["idna_codec"] = dns.name.IDNA_2003
+        elif c.get("idna") == "2008":
+            tkw["idna_codec"] = dns.name.IDNA_2008
+        cls, v, e = guarded(lambda: dns.rdata.from_text(c["rdclass"], c["rdtype"], t, origin, relativize=bool(c.get("relativize")), **tkw))
         if report(ctx, f"rdata.from_text/type{c['rdtype']}", cls, rep, f"rdata.from_text({c['rdclass']},{c['rdtype']},{t!r}) raised {e!r}"):
             return
         ctx.count(f"rdata.text.type{c['rdtype']}.{cls.split(':')[0]}")
@@ -533,6 +542,19 @@ def eval_case(ctx: Ctx, c: dict):
         kw = {"origin": "example." if c.get("origin") else None, "relativize": bool(c.get("relativize")), "check_origin": bool(c.get("check_origin")), "allow_include": False}
         if c.get("filename"):
             kw["filename"] = c["filename"]
+        zo = c.get("zopts") or {}
+        if zo.get("factory") == "versioned":
+            kw["zone_factory"] = dns.versioned.Zone
+        elif zo.get("factory") == "btree":
+            kw["zone_factory"] = dns.btreezone.Zone
+        if zo.get("rdclass"):
+            kw["rdclass"] = zo["rdclass"]
+        if "directives" in zo:
+            kw["allow_directives"] = zo["directives"]
+        if zo.get("idna") == "2003":
+            kw["idna_codec"] = dns.name.IDNA_2003
+        elif zo.get("idna") == "2008":
+            kw["idna_codec"] = dns.name.IDNA_2008
         cls, z, e = guarded(lambda: dns.zone.from_text(t, **kw), zone_level=True)
         entry = "zone.from_text"
         if cls == "HANG" or cls == "FOREIGN:MemoryError":
@@ -572,7 +594,13 @@ def eval_case(ctx: Ctx, c: dict):
                         break
     elif k == "rrsets.text":
         t = c["text"]
-        cls, v, e = guarded(lambda: dns.zonefile.read_rrsets(t, origin="example." if c.get("origin") else None, relativize=bool(c.get("relativize")), name=c.get("name"), rdclass=c.get("rdclass", "IN"), default_ttl=c.get("default_ttl")), zone_level=True)
+        rkw = dict(origin="example." if c.get("origin") else None, relativize=bool(c.get("relativize")), name=c.get("name"), rdclass=c.get("rdclass", "IN"), default_ttl=c.get("default_ttl"))
+        for k_ in ("ttl", "rdtype", "default_rdclass"):
+            if c.get(k_) is not None:
+                rkw[k_] = c[k_]
+        if c.get("rdclass_none"):
+            rkw["rdclass"] = None
+        cls, v, e = guarded(lambda: dns.zonefile.read_rrsets(t, **rkw), zone_level=True)
         report(ctx, "zonefile.read_rrsets", cls, rep, f"read_rrsets({t!r}) raised {e!r}")
         if v:
             for rrs in v[:4]:
@@ -793,7 +821,11 @@ def generate(ctx: Ctx, scale: int, rng):
         m = rng.below(3)
         t = mutate_text(rng, s["text"]) if m < 2 else soup(rng)
         c = {"kind": "rdata.text", "rdclass": s["rdclass"], "rdtype": s["rdtype"], "text": t, "origin": rng.below(2), "relativize": rng.below(2)}
-        ctx.case(("rt", s["rdtype"], t, c["origin"], c["relativize"]), sample=c)
+        if rng.chance(1, 4):
+            c["rt"] = rng.choice(["example.", "sub.example.", ".", "other.", "@"])
+        if rng.chance(1, 5):
+            c["idna"] = rng.choice(["2003", "2008"])
+        ctx.case(("rt", s["rdtype"], t, c["origin"], c["relativize"], c.get("rt"), c.get("idna")), sample=c)
         eval_case(ctx, c)
     for _ in range(n(1200)):
         lines = []
@@ -818,10 +850,28 @@ def generate(ctx: Ctx, scale: int, rng):
                 lines.append(f"{ace} 300 IN {rng.choice(['A 10.0.0.1', 'TXT \"caf\\195\\169\"', 'TXT \"\\255\\254\"', 'CNAME ' + ace + '.example.'])}")
         t = "\n".join(lines) + rng.choice(["\n", "", "\n\n"])
         c = {"kind": "zone.text", "text": t, "origin": 0 if rng.chance(1, 6) else 1, "relativize": rng.below(2), "check_origin": rng.below(2)}
-        ctx.case(("zt", t, c["origin"], c["relativize"], c["check_origin"]), sample=c if len(t) < 120 else None)
+        if rng.chance(1, 3):
+            zo = {}
+            if rng.chance(1, 2):
+                zo["factory"] = rng.choice(["versioned", "btree"])
+            if rng.chance(1, 4):
+                zo["rdclass"] = rng.choice(["CH", "HS", "IN"])
+            if rng.chance(1, 3):
+                zo["directives"] = rng.choice([False, True, [], ["$TTL"], ["ORIGIN", "$generate"], ["$UNICODE", "$TTL", "$ORIGIN"]])
+            if rng.chance(1, 4):
+                zo["idna"] = rng.choice(["2003", "2008"])
+            c["zopts"] = zo
+        ctx.case(("zt", t, c["origin"], c["relativize"], c["check_origin"], str(c.get("zopts"))), sample=c if len(t) < 120 else None)
         eval_case(ctx, c)
         if rng.chance(1, 3):
-            c2 = {"kind": "rrsets.text", "text": t, "origin": rng.below(2), "relativize": rng.below(2), "name": rng.choice([None, "n", "n.example."]), "default_ttl": rng.choice([None, 300])}
+            c2 = {"kind": "rrsets.text", "text": t, "origin": rng.below(2), "relativize": rng.below(2), "name": rng.choice([None, "n", "n.example."]), "default_ttl": rng.choice([None, 300, "1h", 0])}
+            if rng.chance(1, 3):
+                c2["ttl"] = rng.choice([300, "2h", 0, 4294967295])
+            if rng.chance(1, 3):
+                c2["rdtype"] = rng.choice(["A", "TXT", 1, "TYPE65280"])
+            if rng.chance(1, 4):
+                c2["rdclass_none"] = 1
+                c2["default_rdclass"] = rng.choice(["IN", "CH"])
             ctx.case(("rs", t, str(c2)))
             eval_case(ctx, c2)
     BAD_LINES = ["x IN NOSUCHTYPE 1", "x IN A 999.1.1.1", "x IN A", "x 300 IN MX ten mail", "x IN AAAA 1.2.3.4", "x IN TXT \"unterminated",
